@@ -46,7 +46,7 @@ for pid in ids:
 
 manifest = {
     "version": 1,
-    "setup_cmd": "cd /verif/harness && CARGO_NET_OFFLINE=true cargo build --offline --bin vrun",
+    "setup_cmd": "cd /verif && CARGO_NET_OFFLINE=true ./check --setup",
     "hooks": {
         "guard": "cargo feature `verif-hooks` of crate apollo-compiler (off by default)",
         "enable": "the harness crate /verif/harness depends on /repo/crates/apollo-compiler by path with features = [\"verif-hooks\"]; ./check rebuilds it from /repo's working tree on every run",
